@@ -289,6 +289,7 @@ def check(an, rep, tier):
     fn = prog.func('als.als')
     mod = fn.module
     ok = False
+    wrong_count = None
     for node in ast.walk(fn.node):
         if isinstance(node, ast.Raise):
             gs = paths.guards_of(fn.node, node)
@@ -310,14 +311,46 @@ def check(an, rep, tier):
             differs = any(oc is ast.NotEq and _is_unique_count(l) and
                           _is_mode_size(r)
                           for _, oc, _, l, r in paths.cmp_facts(gs))
+            other = [paths.src(mod, l) for _, oc, _, l, r in
+                     paths.cmp_facts(gs) if oc is ast.NotEq and
+                     _is_mode_size(r) and not _is_unique_count(l) and
+                     not _is_mode_size(l)]
+            if skip_off and other and not differs:
+                wrong_count = other[0]
             if skip_off and differs:
                 wl = [n for n in ast.walk(fn.node) if isinstance(n, ast.While)]
                 if wl and node.lineno < wl[0].lineno:
                     ok = True
+    if not ok and wrong_count:
+        rep.violation('P-validate', 'als.als', 'slice coverage check',
+                      'the rejection compares %s with the mode size: only the '
+                      'number of DISTINCT indices of a mode tells whether '
+                      'every slice has a sample' % wrong_count)
+    if not ok and not wrong_count:
+        # not in the expected place: decide by abstract execution -- with the
+        # flag off some ValueError must be raised that is not raised with the
+        # flag on (wherever the test lives, e.g. in a helper)
+        def _raises(flag):
+            out = set()
+            for vi_, v_ in enumerate(specs_.variants('als.als')):
+                if 'r' in v_ or 'w' in v_:
+                    continue
+                v2 = dict(v_)
+                v2['allow_skip_cores'] = ('lit', flag)
+                r_ = an.run('als.als', vi_, 2, variant=v2,
+                            extra_key=('skip', flag))
+                out |= {x for x in r_.I.raises if x[1] == 'ValueError'}
+            return out
+        from .. import specs as specs_
+        only_off = _raises(False) - _raises(True)
+        ok = bool(only_off)
+        absent = True
+    else:
+        absent = False
     rep.add('P-validate', 'als.als', 'slice coverage check',
-            'ok' if ok else 'violation',
-            '' if ok else 'missing-slice data is no longer rejected (under '
-            'not allow_skip_cores, before the first sweep)')
+            'ok' if ok else ('violation' if not wrong_count else 'violation'),
+            '' if ok else 'missing-slice data is no longer rejected (no '
+            'ValueError depends on allow_skip_cores being off)')
     P.check_stop_writers(prog, rep, functions={'als.als', 'utils._info_appr',
                                                 'als_func.als_func'})
     P.check_sweep_epilogue(prog, rep, 'als.als')
@@ -329,13 +362,27 @@ def check(an, rep, tier):
                 (prog.dotted(node.func) or '').endswith('matrix_skeleton'):
             kws = {k.arg: k.value for k in node.keywords}
             g = kws.get('give_to')
-            ok = isinstance(g, ast.IfExp) and \
-                isinstance(g.test, ast.Name) and g.test.id == 'ltr' and \
-                isinstance(g.body, ast.Constant) and g.body.value == 'r' and \
-                isinstance(g.orelse, ast.Constant) and g.orelse.value == 'l'
+            from .. import roles as _roles1
+            if g is not None:
+                g = _roles1.inline(fn.node, g)
+            # value of give_to when ltr holds / fails (either arm order)
+            when = None
+            if isinstance(g, ast.IfExp):
+                t_, flip = g.test, False
+                while isinstance(t_, ast.UnaryOp) and \
+                        isinstance(t_.op, ast.Not):
+                    t_, flip = t_.operand, not flip
+                if isinstance(t_, ast.Name) and t_.id == 'ltr' and \
+                        isinstance(g.body, ast.Constant) and \
+                        isinstance(g.orelse, ast.Constant):
+                    when = (g.orelse.value, g.body.value) if flip else \
+                        (g.body.value, g.orelse.value)
+            ok = when == ('r', 'l')
             rep.add('O-sweep', 'als._optimize_core_adaptive',
-                    paths.src(fn.module, node)[:80],
-                    'ok' if ok else 'violation',
+                    'give_to of the two-core split follows the direction',
+                    'ok' if ok else ('violation' if when is not None or
+                                     isinstance(g, ast.Constant)
+                                     else 'unknown'),
                     '' if ok else 'the weights of the two-core split must go '
                     'to the core visited next (give_to="r" when ltr else "l")',
                     line=node.lineno, file=fn.module.path)
